@@ -21,7 +21,7 @@ impl RrdpServers {
             let host = w.host(r);
             let prefix = format!("rsync://{host}/");
             let objs: BTreeMap<String, Vec<u8>> = p.files.iter().filter(|(u, _)| u.starts_with(&prefix)).map(|(u, b)| (u.clone(), b.to_vec())).collect();
-            let srv = self.servers.entry(r).or_insert_with(|| RrdpServer::new(&host, 0xabc0 + r as u64));
+            let srv = self.servers.entry(r).or_insert_with(|| RrdpServer::new(&w.notify_host(r), 0xabc0 + r as u64));
             if srv.objects != objs { if srv.objects.is_empty() && srv.deltas.is_empty() { srv.objects = objs; srv.etag_counter += 1; } else { srv.update(objs); } }
             srv.install(fake, faults.get(&r).unwrap_or(&Faults::default()));
         }
